@@ -18,3 +18,6 @@ pub fn build_coinbase_input<K, B>(value: u64, key_id: Identifier) -> (r: Box<App
 #[verifier::external_body]
 pub fn build_output<K, B>(value: u64, key_id: Identifier) -> (r: Box<Append<K, B>>)
     ensures part_spec(*r) == (PartSpec::Output { value, key: key_id }) { unimplemented!() }
+
+// the inputs/outputs a transaction body was built from (grin_core::libtx::build), abstractly
+pub uninterp spec fn tx_parts(t: Transaction) -> Seq<PartSpec>;
